@@ -156,7 +156,7 @@ package app
 //@ requires [history-invariant] forall c string :: {fexists[c]} I01(c)
 //@ modifies a.stream, a.logger, a.Options.Spokfile, foundDir, findReadErr, taskIdx, loadedOK, removed, fexists, fdata, last, ranCount, dagV, dagE, dagItem, dagN, qpos, lastGraph, runPhase, lastResults, fswrites, runCalls, stdoutDocs, listed, strmLeft, strmDone, strmExp, strmLastT, strmInput
 //@ at entry: ghost loadedOK = false
-//@ at return New#1: ghost loadedOK = (err == nil)
+//@ at return file.New#0: ghost loadedOK = (err == nil)
 //@ ensures [C19,init-writes-only-spokfile-and-gitignore] a.Options.Init ==> forall p string :: {fswrites[p]} fswrites[p] && !old(fswrites)[p] ==> p == initSpok() || p == initIgnore()
 //@ ensures [C19,init-never-overwrites-an-existing-spokfile] a.Options.Init && ioOK && old(fexists)[initSpok()] ==> result != nil && fswrites == old(fswrites) && fdata == old(fdata)
 //@ ensures [C19,nothing-written-unless-the-spokfile-parses-and-loads] !a.Options.Init && !loadedOK ==> fswrites == old(fswrites) && fdata == old(fdata) && fexists == old(fexists)
